@@ -991,6 +991,68 @@ func (r *c07Run) famRedeliveryIdle(v int) {
 	s.emitHist("C07 family redelivery-idempotent, variant " + fmt.Sprint(v))
 }
 
+// multi-byte counters: the creator issues n >= 255 NFTs (burnt again at once so that the state stays small), hands the role over
+// (same shard or cross shard), the new holder must continue at n+1; then on to a third account and back
+func (r *c07Run) famBigCounter(v int, n int, cross bool, withHist bool) {
+	route := "same-shard"
+	if cross {
+		route = "cross-shard"
+	}
+	s := r.newScn("multi-byte-counter/"+route, v)
+	if !withHist {
+		s.hrec = nil
+	}
+	u := s.u
+	a := [][]byte{u.U[0], u.U[2], u.K[0]}[v%3]
+	tok := u.NFTs[(v+n)%len(u.NFTs)]
+	b := s.sameShard(a, v+n)
+	if cross {
+		b = s.other(a, v+n)
+	}
+	s.expect(s.grantAll(a, tok), "grant")
+	s.emitProb = 1 << 30 // the bulk is checked by the monitors only
+	for i := 0; i < n; i++ {
+		if k := createdNonce(s.create(a, tok, 1, "bulk")); k > 0 && i < n-2 {
+			s.tx(a, a, "ESDTNFTBurn", bigGas, tok, be(k), be(1))
+		}
+	}
+	s.emitProb = 1
+	check := func(who []byte, want uint64, when string) {
+		s.c.count("C07/multi-byte-counter/checked/" + route)
+		sh := s.w.shardOf(who)
+		got := counterOf(s.w.shards[sh].accounts[string(who)], tok)
+		if got != want {
+			s.c.fail("monitor", "handover-counter/"+fnHandover+"/multi-byte", fmt.Sprintf("%s hand-over of %q with counter %d (%x): %s the new holder %x has counter %d (%x)", route, tok, want, be(want), when, who, got, be(got)),
+				map[string]interface{}{"history": histReplay(s.hist)})
+		}
+	}
+	ho := s.handover(a, b, tok)
+	s.expect(ho, "handover")
+	s.create(a, tok, 1, "old-holder") // refused
+	s.deliverNew(ho)
+	check(b, uint64(n), "after delivery")
+	for i := 1; i <= 3; i++ {
+		if k := createdNonce(s.create(b, tok, 1, "new-holder")); k != uint64(n+i) {
+			s.c.count("C07/multi-byte-counter/new-holder-create-not-ok")
+		}
+	}
+	check(b, uint64(n+3), "after three creates")
+	// on to a third account on the other kind of route, and back to the first creator
+	d := s.other(b, v)
+	if cross {
+		d = s.sameShard(b, v)
+	}
+	s.deliverNew(s.handover(b, d, tok))
+	check(d, uint64(n+3), "after the second hand-over")
+	s.create(d, tok, 1, "third-holder")
+	s.deliverNew(s.handover(d, a, tok))
+	check(a, uint64(n+4), "back at the first creator")
+	s.create(a, tok, 1, "first-creator-again")
+	if withHist {
+		s.emitHist(fmt.Sprintf("C07 family multi-byte-counter %s, n=%d, variant %d", route, n, v))
+	}
+}
+
 // generated histories under single-creator discipline
 func (r *c07Run) famRandom(v, nOps int, redeliver, withHist bool, emitProb int) {
 	name := "generated-disciplined"
@@ -1099,7 +1161,7 @@ func init() {
 		c.stateProj = "sp_nonces" // the part of the state this property's theorems speak about
 		u := newUniverse()
 		u.NFTs = append(u.NFTs, []byte("NFC-778899"), []byte("SFD-aabbcc"))
-		c.rep.Rule = "every executed call is checked on the implementation: a successful ESDTNFTCreate returns big-endian(counter under ELRONDnonce‖token in the caller's pre-state + 1), stores the entry under that nonce and persists the counter; a successful ESDTNFTCreateRoleTransfer removes counter and role at the old holder, installs them at the new holder (same shard) or ships exactly (token, counter) in the message and installs them at delivery; re-delivery with the counter still as shipped changes nothing. Histories under single-creator discipline (role set once by the system contract, then only handed over from the current holder; several tokens per creator): hand-written families (create / burn the latest / transfer away / hand-over same shard, cross shard, delivered late, to itself, back and forth) and generated histories mixing creates, hand-overs, deliveries in any order, transfers, burns, freezes, pauses; the set of issued (token, nonce) is tracked over the whole history: no nonce twice, each create above the highest nonce ever issued, role and counter only at the tracked holder. Histories with repeated delivery of the hand-over message (REDELIVER) exercise F9; a uniqueness failure is minimised by delta debugging and gets the F9 signature only if the minimal history still needs a repeated delivery. Plus random walks of the shared generator (per-call checks). Every executed call and every whole history (incl. REDELIVER) is re-evaluated in the Coq model (return data, transfers, state / final world). distinct = distinct (shard state, call)."
+		c.rep.Rule = "every executed call is checked on the implementation: a successful ESDTNFTCreate returns big-endian(counter under ELRONDnonce‖token in the caller's pre-state + 1), stores the entry under that nonce and persists the counter; a successful ESDTNFTCreateRoleTransfer removes counter and role at the old holder, installs them at the new holder (same shard) or ships exactly (token, counter) in the message and installs them at delivery; re-delivery with the counter still as shipped changes nothing. Histories under single-creator discipline (role set once by the system contract, then only handed over from the current holder; several tokens per creator): hand-written families (create / burn the latest / transfer away / hand-over same shard, cross shard, delivered late, to itself, back and forth; collections of 255 / 256 / 300 / 511 / 512 (thorough: up to 65537) NFTs handed over same shard and cross shard so that two- and three-byte counters travel, with the counter at every new holder compared with the number issued) and generated histories mixing creates, hand-overs, deliveries in any order, transfers, burns, freezes, pauses; the set of issued (token, nonce) is tracked over the whole history: no nonce twice, each create above the highest nonce ever issued, role and counter only at the tracked holder. Histories with repeated delivery of the hand-over message (REDELIVER) exercise F9; a uniqueness failure is minimised by delta debugging and gets the F9 signature only if the minimal history still needs a repeated delivery. Plus random walks of the shared generator (per-call checks). Every executed call and every whole history (incl. REDELIVER) is re-evaluated in the Coq model (return data, transfers, state / final world). distinct = distinct (shard state, call)."
 		c.setExecStream(c07Proj)
 		c.smallHistFiles(4)
 		quick := !(c.thorough() || c.widen)
@@ -1116,6 +1178,15 @@ func init() {
 			r.famRedeliveryIdle(v)
 			r.famRedeliveryMovedOn(v)
 		}
+		// counters of two and three bytes (big-endian in storage and in the message)
+		sizes := []int{255, 256, 300, 511, 512}
+		if !quick {
+			sizes = append(sizes, 257, 1000, 4095, 4096, 65535, 65536, 65537)
+		}
+		for i, n := range sizes {
+			r.famBigCounter(i, n, true, n == 256)
+			r.famBigCounter(i+1, n, false, false)
+		}
 		for v := 0; v < nRand; v++ {
 			r.famRandom(v, nOps, v%2 == 1, v < nHist, 1+v/nHist*3)
 		}
@@ -1127,6 +1198,6 @@ func init() {
 			Tune: func(g *gen) {
 				g.wSupply, g.wSystem, g.wTransfer, g.wDeliver, g.wHostile, g.wAccount = 40, 22, 18, 14, 0, 2
 			}})
-		c.sample(map[string]interface{}{"families": []string{"burn-latest+transfer-away", "handover", "handover-redelivery", "redelivery-idempotent", "generated-disciplined", "generated-disciplined+redelivery", "walk"}})
+		c.sample(map[string]interface{}{"families": []string{"burn-latest+transfer-away", "handover", "handover-redelivery", "redelivery-idempotent", "multi-byte-counter", "generated-disciplined", "generated-disciplined+redelivery", "walk"}})
 	}
 }
